@@ -18,6 +18,7 @@ import (
 	"net"
 	"net/netip"
 	"os"
+	"sort"
 	"strings"
 	"syscall"
 	"testing"
@@ -243,6 +244,57 @@ type dvResult struct {
 	FinalAutoconf      bool
 	Overflow           bool
 	Dials, Tasks       int // entries consumed
+	// a select was entered with the context already cancelled: if its timer was 0 the Go runtime
+	// chose between two ready cases at random
+	Raced bool
+}
+
+// dvCtx observes when Dial looks at the context.
+type dvCtx struct {
+	context.Context
+	r *dvRun
+}
+
+func (c dvCtx) Done() <-chan struct{} {
+	if c.r.cancelled {
+		c.r.res.Raced = true
+	}
+	return c.Context.Done()
+}
+
+func (res *dvResult) signature() string {
+	var b strings.Builder
+	for _, e := range res.Events {
+		fmt.Fprintf(&b, "%d%s;", e.T, e.Ev)
+	}
+	return b.String()
+}
+
+// dvExecAll runs the script and, when a select race was possible, runs it again until both
+// resolutions were (very probably) seen; results are ordered by their logs, so the k-th outcome
+// of a script is the same in every run of the driver.
+func dvExecAll(t *testing.T, s dvScript) []*dvResult {
+	first := dvExec(t, s)
+	if !first.Raced {
+		return []*dvResult{first}
+	}
+	seen := map[string]*dvResult{first.signature(): first}
+	for i := 0; i < 24; i++ {
+		r := dvExec(t, s)
+		if _, ok := seen[r.signature()]; !ok {
+			seen[r.signature()] = r
+		}
+	}
+	var keys []string
+	for k := range seen {
+		keys = append(keys, k)
+	}
+	sort.Strings(keys)
+	var l []*dvResult
+	for _, k := range keys {
+		l = append(l, seen[k])
+	}
+	return l
 }
 
 // dvRun is the state of one run.
@@ -521,7 +573,7 @@ func dvExec(t *testing.T, s dvScript) *dvResult {
 			r.doCancel()
 		}
 		resC := make(chan error, 1)
-		go func() { resC <- d.Dial(ctx, r.task) }()
+		go func() { resC <- d.Dial(dvCtx{ctx, r}, r.task) }()
 		for {
 			synctest.Wait()
 			select {
@@ -613,6 +665,9 @@ func (res *dvResult) tags(s dvScript) []string {
 	if s.Pre {
 		tags = append(tags, "cancelled-before-dial")
 	}
+	if res.Raced {
+		tags = append(tags, "select-entered-cancelled")
+	}
 	if len(res.Events) > 0 && res.Events[len(res.Events)-1].T >= 3e9 {
 		tags = append(tags, "reached-3s-cap")
 	}
@@ -629,49 +684,50 @@ type dvAlphabet struct {
 	waitCancel bool
 }
 
-func dvEnumerate(t *testing.T, base dvScript, a dvAlphabet, visit func(s dvScript, res *dvResult)) int {
+func dvEnumerate(t *testing.T, base dvScript, a dvAlphabet, visit func(s dvScript, res *dvResult, k int)) int {
 	n := 0
 	var rec func(s dvScript, emit bool)
 	rec = func(s dvScript, emit bool) {
 		if a.maxCases > 0 && n >= a.maxCases {
 			return
 		}
-		res := dvExec(t, s)
-		if emit {
-			n++
-			visit(s, res)
-		}
 		depth := len(s.Dials) + len(s.Tasks)
-		switch res.Exhausted {
-		case "dial":
-			if depth >= a.maxDepth {
-				return
+		for k, res := range dvExecAll(t, s) {
+			if emit {
+				n++
+				visit(s, res, k)
 			}
-			for _, d := range a.dials(res.CancelledAtExhaust) {
+			switch res.Exhausted {
+			case "dial":
+				if depth >= a.maxDepth {
+					continue
+				}
+				for _, d := range a.dials(res.CancelledAtExhaust) {
+					c := s.clone()
+					c.Dials = append(c.Dials, d)
+					rec(c, true)
+				}
+			case "task":
+				if depth >= a.maxDepth {
+					continue
+				}
+				for _, te := range a.tasks(res.CancelledAtExhaust) {
+					c := s.clone()
+					c.Tasks = append(c.Tasks, te)
+					rec(c, true)
+				}
+			case "wait":
+				// the run above took the default "no cancellation" for the wait that ran out: the
+				// script with that choice written down behaves the same (not emitted again) but
+				// exposes the next point where the script runs out; the other branch cancels here
 				c := s.clone()
-				c.Dials = append(c.Dials, d)
-				rec(c, true)
-			}
-		case "task":
-			if depth >= a.maxDepth {
-				return
-			}
-			for _, te := range a.tasks(res.CancelledAtExhaust) {
-				c := s.clone()
-				c.Tasks = append(c.Tasks, te)
-				rec(c, true)
-			}
-		case "wait":
-			// the run above took the default "no cancellation" for the wait that ran out: the
-			// script with that choice written down behaves the same (not emitted again) but
-			// exposes the next point where the script runs out; the other branch cancels here
-			c := s.clone()
-			c.Waits = append(c.Waits, false)
-			rec(c, false)
-			if a.waitCancel {
-				c2 := s.clone()
-				c2.Waits = append(c2.Waits, true)
-				rec(c2, true)
+				c.Waits = append(c.Waits, false)
+				rec(c, false)
+				if a.waitCancel {
+					c2 := s.clone()
+					c2.Waits = append(c2.Waits, true)
+					rec(c2, true)
+				}
 			}
 		}
 	}
@@ -774,8 +830,8 @@ func TestVerifC10dial(t *testing.T) {
 	}
 	for _, pre := range []bool{false, true} {
 		base := dvScript{Autoconf0: true, Pre: pre}
-		dvEnumerate(t, base, alpha, func(s dvScript, res *dvResult) {
-			id := dvID("x", s)
+		dvEnumerate(t, base, alpha, func(s dvScript, res *dvResult, k int) {
+			id := fmt.Sprintf("%s#%d", dvID("x", s), k)
 			if out.Wants(id) {
 				dvEmit(out, id, s, res, false, "stream:exhaustive")
 			}
@@ -791,11 +847,12 @@ func TestVerifC10dial(t *testing.T) {
 	for i := 0; i < n; i++ {
 		id := fmt.Sprintf("r%d", i)
 		s := dvRandomScript(r, false)
-		if !out.Wants(id) {
+		if !dvWants(out, id) {
 			continue
 		}
-		res := dvExec(t, s)
-		dvEmit(out, id, s, res, false, "stream:random")
+		for k, res := range dvExecAll(t, s) {
+			dvEmit(out, fmt.Sprintf("%s#%d", id, k), s, res, false, "stream:random")
+		}
 	}
 }
 
@@ -888,4 +945,10 @@ func dvRandomFailSteps(r *verifh.Rand) dvSteps {
 	}
 	st.Leave, st.Close = !r.Chance(15), !r.Chance(15)
 	return st
+}
+
+// dvWants: ids carry an outcome suffix "#k"; in replay mode run the script the wanted case belongs to.
+func dvWants(out *verifh.Out, id string) bool {
+	only := os.Getenv("VERIF_ONLY")
+	return only == "" || strings.HasPrefix(only, id+"#")
 }
